@@ -118,7 +118,7 @@ Proof.
   induction ss as [|st r IH]; intros off cm c ws need pl H Hw.
   - cbn in H. inversion H; subst. cbn. repeat split; auto; lia.
   - cbn [plan_steps] in H. cbn [body_len fold_right]. fold (body_len r).
-    destruct st as [bs|s cf|n| |].
+    destruct st as [bs|s cf|n| | |n|].
     + assert (Hw1 : writes_within (ws ++ [(off, bs)]) (Nat.max need (off + length bs))).
       { apply writes_within_app; [apply (writes_within_mono ws need); [assumption|lia]|apply writes_within_one; cbn; lia]. }
       destruct (IH _ _ _ _ _ _ H Hw1) as (A & B & C & D & E). cbn [step_len]. repeat split; auto; try lia.
@@ -134,6 +134,8 @@ Proof.
       destruct (IH _ _ _ _ _ _ H Hw1) as (A & B & C & D & E). cbn [step_len]. repeat split; auto; try lia.
     + assert (Hw1 : writes_within ws (Nat.max need (off + 1))) by (apply (writes_within_mono ws need); [assumption|lia]).
       destruct (IH _ _ _ _ _ _ H Hw1) as (A & B & C & D & E). cbn [step_len]. repeat split; auto; try lia.
+    + destruct (IH _ _ _ _ _ _ H Hw) as (A & B & C & D & E). cbn [step_len]. repeat split; auto; try lia.
+    + discriminate.
 Qed.
 
 Lemma u16_len v : length (u16_bytes v) = 2. Proof. reflexivity. Qed.
